@@ -390,6 +390,21 @@ func (cs *Contracts) LoadContractText(text, path, pkgPath string) error {
 				cl.Label = "g" + strconv.Itoa(len(cur.Grants)+1)
 			}
 			cur.Grants = append(cur.Grants, cl)
+		case "relies":
+			// relies l: e  ==  requires l: e that is an OBJECT INVARIANT (see maintains) without the ensures half: assumed
+			// at call sites in other packages, proved at call sites inside the declaring package.
+			if cur == nil {
+				return fmt.Errorf("%s:%d: relies outside func", base, it.n)
+			}
+			c1, err := parseClause(rest, base, it.n, true)
+			if err != nil {
+				return err
+			}
+			if c1.Label == "" {
+				c1.Label = "i" + strconv.Itoa(len(cur.Requires)+1)
+			}
+			c1.ObjInv = true
+			cur.Requires = append(cur.Requires, c1)
 		case "maintains":
 			// maintains l: e  ==  requires l: e + ensures l: e, where the requires half is an OBJECT INVARIANT: it is
 			// proved at call sites inside the declaring package and assumed at call sites in other packages (which
